@@ -13,7 +13,7 @@
    max_depth / max_nodes in Z, every deadline oracle [hit] (hence every clock
    script through Rebac.hit_of_clock). *)
 From Coq Require Import List String ZArith.
-From Rbacx Require Import Value Rebac RebacProofs.
+From Rbacx Require Import Value Rebac RebacProofs RebacMono.
 Import ListNotations.
 Local Open Scope string_scope.
 
@@ -98,6 +98,54 @@ Theorem c12_within_b_spec : forall cfg root,
 Proof. exact within_b_spec. Qed.
 Print Assumptions c12_within_b_spec.
 
+(* ---- the store enters the answer only as a set, and positively (RebacMono.v) ---- *)
+
+(* insertion order and duplicate tuples: two stores with the same elements derive
+   exactly the same relations at every depth *)
+Theorem c12_store_is_a_set : forall cfg1 cfg2,
+  (forall t, In t (c_store cfg1) <-> In t (c_store cfg2)) ->
+  c_rules cfg1 = c_rules cfg2 -> c_reg cfg1 = c_reg cfg2 ->
+  forall d n, derivable cfg1 d n <-> derivable cfg2 d n.
+Proof. exact derivable_store_set. Qed.
+Print Assumptions c12_store_is_a_set.
+
+(* ... and so do the checkers themselves when no limit can fire *)
+Theorem c12_same_tuples_same_answer : forall cfg1 cfg2 s rel obj,
+  (forall t, In t (c_store cfg1) <-> In t (c_store cfg2)) ->
+  c_rules cfg1 = c_rules cfg2 -> c_reg cfg1 = c_reg cfg2 -> c_max_depth cfg1 = c_max_depth cfg2 ->
+  (Z.of_nat (node_bound cfg1 (s, rel, obj)) <= c_max_nodes cfg1)%Z ->
+  (Z.of_nat (node_bound cfg2 (s, rel, obj)) <= c_max_nodes cfg2)%Z ->
+  check cfg1 (fun _ => false) s rel obj = check cfg2 (fun _ => false) s rel obj.
+Proof. exact same_tuples_same_answer. Qed.
+Print Assumptions c12_same_tuples_same_answer.
+
+(* adding tuples never revokes: an answer True under ANY limits and deadline is the
+   answer of every checker over a larger store with a deeper limit, a sufficient
+   node budget and no deadline *)
+Theorem c12_more_tuples_only_grant : forall cfg hit s rel obj st' md' mn',
+  incl (c_store cfg) st' ->
+  (c_max_depth cfg <= md')%Z ->
+  (Z.of_nat (node_bound (with_store cfg st') (s, rel, obj)) <= mn')%Z ->
+  check cfg hit s rel obj = true ->
+  check (with_limits (with_store cfg st') md' mn') (fun _ => false) s rel obj = true.
+Proof. exact more_tuples_only_grant. Qed.
+Print Assumptions c12_more_tuples_only_grant.
+
+(* removing tuples never grants: what a store does not derive within max_depth no
+   sub-store makes check() answer True, whatever the limits and the deadline *)
+Theorem c12_fewer_tuples_only_revoke : forall cfg hit s rel obj st',
+  incl (c_store cfg) st' ->
+  ~ derivable_within (with_store cfg st') (c_max_depth cfg) (s, rel, obj) ->
+  check cfg hit s rel obj = false.
+Proof. exact fewer_tuples_only_revoke. Qed.
+Print Assumptions c12_fewer_tuples_only_revoke.
+
+(* the depth limit alone only fails closed *)
+Theorem c12_deeper_only_grants : forall cfg D D' n,
+  (D <= D')%Z -> derivable_within cfg D n -> derivable_within cfg D' n.
+Proof. exact deeper_only_grants. Qed.
+Print Assumptions c12_deeper_only_grants.
+
 (* ---------------- non-vacuity ---------------- *)
 Definition ex_rules : rulemap :=
   [("doc", [("viewer", Union [This; Computed "editor"; TTU "parent" "viewer"]);
@@ -150,3 +198,20 @@ Example c12_example_batch :
               [("user:a", "viewer", "doc:1"); ("user:b", "viewer", "doc:1"); ("user:a", "viewer", "doc:1")]
   = [true; false; true].
 Proof. vm_compute. reflexivity. Qed.
+
+(* the store reversed and with every tuple doubled has the same elements: same answers
+   (hypotheses of c12_same_tuples_same_answer met by a non-trivial pair of stores) *)
+Example c12_example_store_set :
+  let c1 := ex_cfg [] 8 10000 in
+  let c2 := with_store c1 (rev ex_store ++ ex_store)%list in
+  (forall t, In t (c_store c1) <-> In t (c_store c2)) /\
+  (Z.of_nat (node_bound c2 ("user:a", "viewer", "doc:1")) <= c_max_nodes c2)%Z /\
+  check c1 no_deadline "user:a" "viewer" "doc:1" = true /\
+  check c2 no_deadline "user:a" "viewer" "doc:1" = true /\
+  check c2 no_deadline "user:b" "viewer" "doc:1" = false.
+Proof.
+  cbv zeta. split.
+  - intros t. change (In t ex_store <-> In t (rev ex_store ++ ex_store)%list).
+    rewrite in_app_iff, <- in_rev. tauto.
+  - vm_compute. repeat split; congruence.
+Qed.
